@@ -73,7 +73,9 @@ def atomize(test, val):
 
 class SymExec:
     def __init__(self, ctx, func, depth=2, expand=True, bind_loops=False, no_expand=(), max_paths=MAX_PATHS,
-                 objects=False, effects=False, volatile=()):
+                 objects=False, effects=False, volatile=(), props=False, private_only=False):
+        self.props = props              # reads of simple properties of the own class are expanded like helper calls
+        self.private_only = private_only  # only helpers whose name starts with '_' (and local defs) are looked through
         self.max_paths = max_paths
         self.volatile = tuple(volatile)  # attribute names changed by object creation: reads are stamped
         #                                  _read(<expr>, <number of objects created so far on the path>)
@@ -88,12 +90,39 @@ class SymExec:
         self.bind_loops = bind_loops    # loop variables become ITER[_kN] instead of staying opaque
         self._nloops = 0
         self.local_defs = {}            # nested `def` statements seen so far: name -> FunctionDef
+        # module-level constants (NAME = literal / tuple of literals, assigned once) and the names the
+        # function binds itself (which shadow them)
+        self.module_consts = module_constants(func.module)
+        self.local_names = set(func.all_params) | {n.id for n in ast.walk(func.node) if isinstance(n, ast.Name)
+                                                   and isinstance(n.ctx, (ast.Store, ast.Del))}
 
     # ------------------------------------------------------------------ substitution
     def subst(self, e, env):
         def fn(n):
             if isinstance(n, ast.Name) and isinstance(n.ctx, ast.Load) and n.id in env:
                 return env[n.id]
+            if isinstance(n, ast.Name) and isinstance(n.ctx, ast.Load) and n.id in self.module_consts and \
+               n.id not in self.local_names:
+                return self.module_consts[n.id]
+            if self.bind_loops and isinstance(n, ast.Call) and isinstance(n.func, ast.Name) and n.func.id == 'map' \
+               and len(n.args) == 2 and not n.keywords and 'map' not in env:
+                # map(f, X) is (f(x) for x in X)
+                it = self.subst(n.args[1], env)
+                p_ = Path(dict(env), ())
+                tgt = ast.Name(id='_m%d' % self._nloops, ctx=ast.Store())
+                self._bind_loop(tgt, it, p_)
+                elem = p_.env[tgt.id]
+                call = ast.Call(func=self.subst(n.args[0], env), args=[elem], keywords=[])
+                return ast.Call(func=ast.Name(id='_each', ctx=ast.Load()), args=[simplify(call), it], keywords=[])
+            if self.bind_loops and isinstance(n, (ast.GeneratorExp, ast.ListComp)) and len(n.generators) == 2 \
+               and not n.generators[0].ifs and not n.generators[1].ifs:
+                # (E for a in A for b in B(a)): each element of B(a) for each a - nested _each
+                inner = n.__class__(elt=n.elt, generators=[n.generators[1]])
+                outer = ast.GeneratorExp(elt=inner, generators=[n.generators[0]])
+                res = self.subst(outer, env)
+                if isinstance(n, ast.ListComp):
+                    return ast.List(elts=[ast.Starred(value=res, ctx=ast.Load())], ctx=ast.Load())
+                return res
             if isinstance(n, ast.Attribute) and isinstance(n.ctx, ast.Load):
                 d = dotted(n)
                 if d is not None and d in env:
@@ -157,7 +186,9 @@ class SymExec:
             g = m.funcs.get('%s.%s' % (self.func.module.name, fn.id))
         if g is None or g.qual == self.func.qual or isinstance(g.node, ast.Lambda) or g.qual in self.no_expand:
             return None
-        if getattr(g, 'is_property', False):
+        if g.kind in ('property', 'cached_property', 'setter'):
+            return None
+        if self.private_only and not g.name.startswith('_'):
             return None
         star_kw = [k for k in call.keywords if k.arg is None]
         if any(isinstance(a, ast.Starred) for a in call.args) or len(star_kw) > 1 or \
@@ -198,7 +229,7 @@ class SymExec:
            isinstance(body[0].value.value, str):
             body = body[1:]
         sub = SymExec(self.ctx, self.func, self.depth - 1, self.expand, self.bind_loops, self.no_expand,
-                      self.max_paths, self.objects, self.effects, self.volatile)
+                      self.max_paths, self.objects, self.effects, self.volatile, self.props, self.private_only)
         sub._ntok = self._ntok
         sub.local_defs = dict(self.local_defs)
         res = []
@@ -237,7 +268,7 @@ class SymExec:
         if any(p_ not in bind for p_ in params):
             return None
         sub = SymExec(self.ctx, g, self.depth - 1, self.expand, self.bind_loops, self.no_expand,
-                      self.max_paths, self.objects, self.effects, self.volatile)
+                      self.max_paths, self.objects, self.effects, self.volatile, self.props, self.private_only)
         sub._ntok = self._ntok
         paths = sub.run(env=dict(bind))
         if with_effects:
@@ -256,6 +287,33 @@ class SymExec:
             res.append((p.ret, p.conds))
         return res or None
 
+    def _property_paths(self, attr):
+        """[(value, conds)] of reading a property of the own class whose body is a pure computation"""
+        g = self.ctx.model.resolve_method(self.func.cls.name, attr.attr)
+        if g is None or g.kind not in ('property', 'cached_property') or g.qual == self.func.qual or \
+           g.qual in self.no_expand:
+            return None
+        cache = self.__dict__.setdefault('_prop_cache', {})
+        if g.qual in cache:
+            return cache[g.qual]
+        cache[g.qual] = None
+        if any(isinstance(n, (ast.Yield, ast.YieldFrom, ast.For, ast.While)) for n in ast.walk(g.node)):
+            return None
+        sub = SymExec(self.ctx, g, self.depth - 1, self.expand, self.bind_loops, self.no_expand,
+                      self.max_paths, self.objects, self.effects, self.volatile, self.props, self.private_only)
+        sub._ntok = self._ntok
+        res = []
+        for p in sub.run():
+            if p.end == 'raise':
+                continue
+            if p.end != 'return' or p.ret is None or p.stores:
+                return None
+            res.append((p.ret, p.conds))
+        if not res or len(res) > 4:
+            return None
+        cache[g.qual] = res
+        return res
+
     def eval_expr(self, e, path):
         """[(value AST, Path)]: e substituted in path.env; helper calls expanded (forking)"""
         v = self.subst(e, path.env)
@@ -271,6 +329,11 @@ class SymExec:
         for n in ast.walk(v):
             if isinstance(n, ast.Call):
                 hp = self.helper_paths(n, path.env)
+                if hp is not None:
+                    calls.append((n, hp))
+            elif self.props and self.depth > 0 and isinstance(n, ast.Attribute) and isinstance(n.ctx, ast.Load) and \
+                    isinstance(n.value, ast.Name) and n.value.id == 'self' and self.func.cls is not None:
+                hp = self._property_paths(n)
                 if hp is not None:
                     calls.append((n, hp))
         if not calls:
@@ -333,6 +396,12 @@ class SymExec:
             else:
                 for i, t in enumerate(target.elts):
                     self._assign(t, ast.Subscript(value=value, slice=ast.Constant(value=i), ctx=ast.Load()), p, st)
+        elif isinstance(target, ast.Subscript) and isinstance(target.value, ast.Subscript):
+            # X[i][j] = v : an element store two levels down; the container expressions stay opaque
+            t2 = self.subst(copy_replace(target, lambda n: None), p.env)
+            key = norm(t2)
+            p.stores.append((key, value, st))
+            p.events.append(('store', key, value, st, p.loops))
         elif isinstance(target, ast.Subscript):
             b = target.value
             d = dotted(b) if isinstance(b, (ast.Name, ast.Attribute)) else None
@@ -408,6 +477,14 @@ class SymExec:
                 return ast.Tuple(elts=[k, elem(x.args[0])], ctx=ast.Load())
             if isinstance(x, ast.Attribute) and x.attr == 'flat':
                 return ast.Subscript(value=x.value, slice=k, ctx=ast.Load())
+            ea = _each_of(x)
+            if ea is not None:
+                # iterating "each E(IT[j])": the element is E itself (its own index names stand for
+                # the iteration); nested each = flattened iteration
+                e_ = ea[0]
+                while _each_of(e_) is not None and not isinstance(e_, (ast.List, ast.Tuple)):
+                    e_ = _each_of(e_)[0]
+                return e_
             return ast.Subscript(value=x, slice=k, ctx=ast.Load())
         self._assign(target, elem(it), p, None)
         p.stores = [s_ for s_ in p.stores if s_[2] is not None]
@@ -474,6 +551,27 @@ class SymExec:
         if isinstance(st, ast.FunctionDef):
             self.local_defs[st.name] = st
             return [p]
+        if isinstance(st, (ast.Assign, ast.AugAssign, ast.AnnAssign, ast.Return, ast.Expr)):
+            # a conditional expression forks the path like an if statement
+            ife = None
+            todo = [st]
+            while todo and ife is None:
+                n = todo.pop(0)
+                for c in ast.iter_child_nodes(n):
+                    if isinstance(c, (ast.Lambda, ast.GeneratorExp, ast.ListComp, ast.SetComp, ast.DictComp)):
+                        continue
+                    if isinstance(c, ast.IfExp):
+                        ife = c
+                        break
+                    todo.append(c)
+            if ife is not None:
+                alt = ast.If(test=ife.test,
+                             body=[copy_replace(st, lambda x: ife.body if x is ife else None)],
+                             orelse=[copy_replace(st, lambda x: ife.orelse if x is ife else None)])
+                ast.copy_location(alt, st)
+                for b_ in alt.body + alt.orelse:
+                    ast.copy_location(b_, st)
+                return self._stmt(alt, p)
         if isinstance(st, (ast.Assign, ast.Expr)) and self.effects:
             r = self._effect_call(st, p)
             if r is not None:
@@ -537,22 +635,45 @@ class SymExec:
                         b.end = None
                 return paths
         if isinstance(st, (ast.For, ast.While)):
-            p2 = p.fork()
+            starts = []
             if isinstance(st, ast.For):
+                # the iterable with helper calls looked through (a helper returning a generator)
+                its = self.eval_expr(st.iter, p) if self.bind_loops else [(self.subst(st.iter, p.env), p)]
+                if len(its) != 1:
+                    its = [(self.subst(st.iter, p.env), p)]
+                it = its[0][0]
+                loop_txt = norm(it)
+                p2 = p.fork()
                 for n in ast.walk(st.target):
                     if isinstance(n, ast.Name):
                         p2.env.pop(n.id, None)
                         for k in [k for k in p2.env if k.startswith(n.id + '.')]:
                             del p2.env[k]
-                it = self.subst(st.iter, p.env)
                 if self.bind_loops:
-                    self._bind_loop(st.target, it, p2)
-                loop_txt = norm(it)
+                    # the element with helper calls looked through: one start per helper path
+                    probe = Path(dict(p2.env), p2.conds)
+                    tmp = ast.Name(id='_elem', ctx=ast.Store())
+                    self._bind_loop(tmp, it, probe)
+                    elem = probe.env.get('_elem')
+                    p2.conds = p2.conds + (('loop', loop_txt),)
+                    p2.loops = p.loops + (loop_txt,)
+                    for v_, q_ in self.eval_expr(elem, p2):
+                        q_ = q_.fork()
+                        self._assign(st.target, v_, q_, None)
+                        q_.stores = [s_ for s_ in q_.stores if s_[2] is not None]
+                        q_.events = [e_ for e_ in q_.events if not (e_[0] == 'store' and e_[3] is None)]
+                        starts.append(q_)
+                else:
+                    p2.conds = p2.conds + (('loop', loop_txt),)
+                    p2.loops = p.loops + (loop_txt,)
+                    starts.append(p2)
             else:
                 loop_txt = norm(self.subst(st.test, p.env))
-            p2.conds = p2.conds + (('loop', loop_txt),)
-            p2.loops = p.loops + (loop_txt,)
-            body = self._block(st.body, [p2.fork()])
+                p2 = p.fork()
+                p2.conds = p2.conds + (('loop', loop_txt),)
+                p2.loops = p.loops + (loop_txt,)
+                starts.append(p2)
+            body = self._block(st.body, [q_.fork() for q_ in starts])
             for b in body:
                 b.loops = p.loops
             out = []
@@ -737,6 +858,19 @@ def simplify(e):
     """(a, b)[1] -> b   (after substitution; arithmetic is left as written: `c = E` and `c = 0 + E`
     must stay distinguishable)"""
     def fn(n):
+        if isinstance(n, ast.Call) and isinstance(n.func, ast.Name) and n.func.id == 'getattr' and len(n.args) == 2 \
+           and not n.keywords and isinstance(n.args[1], ast.Constant) and isinstance(n.args[1].value, str) and \
+           n.args[1].value.isidentifier():
+            return ast.Attribute(value=n.args[0], attr=n.args[1].value, ctx=ast.Load())
+        if isinstance(n, ast.Subscript) and isinstance(n.value, (ast.Tuple, ast.List)) and isinstance(n.slice, ast.Slice) \
+           and n.slice.step is None and not any(isinstance(x, ast.Starred) for x in n.value.elts) and \
+           all(b_ is None or (isinstance(b_, ast.Constant) and isinstance(b_.value, int)) for b_ in (n.slice.lower, n.slice.upper)):
+            lo_ = n.slice.lower.value if n.slice.lower is not None else None
+            hi_ = n.slice.upper.value if n.slice.upper is not None else None
+            return n.value.__class__(elts=list(n.value.elts)[lo_:hi_], ctx=ast.Load())
+        if isinstance(n, ast.Call) and isinstance(n.func, ast.Name) and n.func.id == 'iter' and len(n.args) == 1 and \
+           not n.keywords and isinstance(n.args[0], (ast.List, ast.Tuple)):
+            return n.args[0]
         if isinstance(n, ast.Subscript) and isinstance(n.slice, ast.BinOp) and isinstance(n.slice.op, (ast.Add, ast.Sub)) \
            and isinstance(n.slice.left, ast.Constant) and isinstance(n.slice.right, ast.Constant) and \
            isinstance(n.slice.left.value, int) and isinstance(n.slice.right.value, int):
@@ -952,6 +1086,41 @@ def loop_transformer(ctx, func, loop, depth=2, **kw):
     return pre, carried, body_paths, post_paths
 
 
+_MODULE_CONSTS = {}
+
+
+def module_constants(module):
+    """{NAME: AST} for module-level names assigned exactly once to a literal (number, string, tuple of
+    literals, arithmetic of literals)"""
+    key = id(module)
+    if key in _MODULE_CONSTS:
+        return _MODULE_CONSTS[key]
+    counts = {}
+    vals = {}
+    for st in module.tree.body:
+        if isinstance(st, ast.Assign) and len(st.targets) == 1 and isinstance(st.targets[0], ast.Name):
+            nm = st.targets[0].id
+            counts[nm] = counts.get(nm, 0) + 1
+            vals[nm] = st.value
+        elif isinstance(st, (ast.AugAssign, ast.AnnAssign)) and isinstance(getattr(st, 'target', None), ast.Name):
+            counts[st.target.id] = counts.get(st.target.id, 0) + 2
+
+    def literal(v):
+        if isinstance(v, ast.Constant):
+            return True
+        if isinstance(v, (ast.Tuple,)):
+            return all(literal(x) for x in v.elts)
+        if isinstance(v, ast.UnaryOp) and isinstance(v.op, (ast.USub, ast.UAdd)):
+            return literal(v.operand)
+        return False
+    # tables (tuples) and strings always; plain numbers only under private names: public numeric
+    # constants (mu_0, epsilon_0 ...) are physical quantities that formulas refer to by name
+    out = {nm: v for nm, v in vals.items() if counts.get(nm) == 1 and literal(v) and
+           (isinstance(v, ast.Tuple) or (isinstance(v, ast.Constant) and isinstance(v.value, str)) or nm.startswith('_'))}
+    _MODULE_CONSTS[key] = out
+    return out
+
+
 def _is_each(e):
     return isinstance(e, ast.Call) and isinstance(e.func, ast.Name) and e.func.id == '_each' and len(e.args) == 2
 
@@ -1076,3 +1245,16 @@ def row_values(e):
     if isinstance(e, ast.JoinedStr):
         return [v.value for v in e.values if isinstance(v, ast.FormattedValue)]
     return None
+
+
+def closed_returns(ctx, func, **kw):
+    """[(conds, closed returned expression)] for every path of func that returns a value: temporaries,
+    private helpers (also handed in as callables), and - with props=True - simple properties of the
+    own class are resolved"""
+    opts = dict(bind_loops=True, depth=3, max_paths=2000)
+    opts.update(kw)
+    out = []
+    for p in SymExec(ctx, func, **opts).run():
+        if p.end == 'return' and p.ret is not None:
+            out.append((p.conds, p.ret))
+    return out
